@@ -160,6 +160,13 @@ func (x *inst) enabled() []string {
 			if m.Open && m.Mode == "RW" && len(m.Chain) >= 3 {
 				out = append(out, t)
 			}
+		case "ULMFF":
+			if !m.Open {
+				continue
+			}
+			for i := 1; i <= len(m.Chain); i++ { // chain files below the head
+				out = append(out, fmt.Sprintf("ULMFF:%d", i))
+			}
 		case "ReopenP", "ReopenN", "Reload", "ReloadULM":
 			if m.Open {
 				out = append(out, t)
